@@ -20,7 +20,8 @@ KINDS = ["asynq-plain", "asynq-generator", "asynq-batch", "asynq-pure", "async_p
          "pure-generator", "proxy-pair", "deduplicate-generator"]
 BINDINGS = ["function", "instance", "class", "subclass-instance", "classmethod", "staticmethod",
             "falsy instance (defines __len__ -> 0)", "classmethod via subclass after access via base class",
-            "second instance after access via first instance"]
+            "second instance after access via first instance",
+            "second instance that is == (and hashes like) a first, distinct instance used just before"]
 
 
 class _B(asynq.BatchBase):
@@ -98,7 +99,7 @@ def build(kind, binding):
                     return (who, None, a, y, z)
         return body
 
-    has_recv = binding in (1, 2, 3, 4, 6, 7, 8)
+    has_recv = binding in (1, 2, 3, 4, 6, 7, 8, 9)
     gen = {1: 1, 2: 2, 11: 1, 13: 1}.get(kind, 0)
     raw = mk_body("async", has_recv, gen)
     sync_raw = mk_body("sync", has_recv, 0)
@@ -185,17 +186,34 @@ def build(kind, binding):
         first.m
         inst = K(2)
         return inst.m, inst, None, pure, has_sync, wrapped, raw, sync_raw, log
+    if binding == 9:
+        class KV(K):
+            """a value object: instances with the same .val are equal and hash alike (.t tells them apart)"""
+            def __init__(self, t, val):
+                K.__init__(self, t)
+                self.val = val
+
+            def __eq__(self, other):
+                return isinstance(other, KV) and other.val == self.val
+
+            def __hash__(self):
+                return 17
+        KV.m = dec
+        first = KV(1, "same")
+        first.m
+        inst = KV(2, "same")
+        return inst.m, inst, None, pure, has_sync, wrapped, raw, sync_raw, log
     raise AssertionError(binding)
 
 
 def applicable(kind, binding):
-    if kind in (8, 9) and binding not in (0, 1, 6, 8):
+    if kind in (8, 9) and binding not in (0, 1, 6, 8, 9):
         return False
-    if kind == 9 and binding in (6, 8):
+    if kind == 9 and binding in (6, 8, 9):
         return False
     if kind == 9 and binding == 1:
         return False        # alru_cache drops the first parameter from its key: written for functions
-    if kind == 10 and binding not in (1, 6, 8):
+    if kind == 10 and binding not in (1, 6, 8, 9):
         return False
     if kind == 9 and binding == 0:
         return True
@@ -412,7 +430,7 @@ def f_dedup_reenter(binding, sp, spi, conv, x, y, z):
 
 def conds(tier):
     out = []
-    out.append(Cond("matrix", f_matrix, [I("kind", 0, len(KINDS) - 1), I("binding", 0, 8), I("sp", 0, 3),
+    out.append(Cond("matrix", f_matrix, [I("kind", 0, len(KINDS) - 1), I("binding", 0, 9), I("sp", 0, 3),
                                          I("x"), I("y"), I("z")], pin=1, builds=("C", "P"), budget=200,
                     family="decorator kind x binding x argument spelling, symbolic arguments", encodes=ENC))
     out.append(Cond("dedup_reenter", f_dedup_reenter, [I("binding", 0, 2), I("sp", 0, 3), I("spi", 0, 1), I("conv", 0, 1),
